@@ -1270,6 +1270,28 @@ def b_reversed(ex, st, args, kwargs, node):
     raise Unsupported('reversed()')
 
 
+@builtin('hash')
+def b_hash(ex, st, args, kwargs, node):
+    # hash() of str/bytes is salted per interpreter start (PYTHONHASHSEED): a function of the value AND of a per-process seed
+    ex.used_stubs.add('hash(x): uninterpreted function of x and the per-process hash seed')
+    seed = z3.Const('PYTHONHASHSEED', z3.IntSort())
+    v = args[0]
+    if isinstance(v, VStr):
+        return [(st, VInt(z3.Function('py_hash_str', z3.StringSort(), z3.IntSort(), z3.IntSort())(v.t, seed)))]
+    if isinstance(v, VInt):
+        return [(st, VInt(v.t))]
+    if isinstance(v, VOpaque):
+        return [(st, VInt(z3.Function('py_hash_obj', ObjSort, z3.IntSort(), z3.IntSort())(v.t, seed)))]
+    raise Unsupported('hash() of %s' % v.shape)
+
+
+@builtin('super')
+def b_super(ex, st, args, kwargs, node):
+    # the base-class view of self: calls on it are opaque events (the base initialiser is not followed)
+    ex.used_stubs.add('super(...): an opaque proxy; base-class methods called through it are opaque callees')
+    return [(st, VOpaque(name='super'))]
+
+
 @builtin('hasattr')
 def b_hasattr(ex, st, args, kwargs, node):
     raise Unsupported('hasattr')
@@ -1712,6 +1734,48 @@ def dict_m_update(ex, st, selfv, args, kwargs, node):
     items = dict(selfv.items)
     items.update(args[0].items)
     return [(s, NONE) for s in writeback(ex, st, node, VDict(items))]
+
+
+@method('str', 'split')
+def str_m_split(ex, st, selfv, args, kwargs, node):
+    """s.split(sep[, maxsplit]) for a constant, non-empty separator: a list of symbolic length n >= 1 whose first two
+    pieces are exact (text before the first separator; text up to the second one, or - with maxsplit == 1 - all the rest),
+    with n == 1 <=> the separator does not occur, n >= 3 <=> it occurs again in the rest (n <= maxsplit + 1);
+    later pieces are uninterpreted strings."""
+    if not args or not isinstance(args[0], VStr) or args[0].conc() in (None, ''):
+        raise Unsupported('str.split without a constant separator')
+    sep = args[0]
+    maxsplit = None
+    if len(args) > 1:
+        maxsplit = args[1].conc() if isinstance(args[1], VInt) else None
+        if maxsplit is None or maxsplit < 1:
+            raise Unsupported('str.split with symbolic / non-positive maxsplit')
+    if st.spec:
+        raise Unsupported('str.split in a specification')
+    t, sp = selfv.t, sep.t
+    ls = z3.IntVal(len(sep.conc()))
+    has = z3.Contains(t, sp)
+    i0 = z3.IndexOf(t, sp, z3.IntVal(0))
+    p0 = z3.If(has, z3.SubString(t, z3.IntVal(0), i0), t)
+    rest = z3.SubString(t, i0 + ls, z3.Length(t) - i0 - ls)
+    has2 = z3.Contains(rest, sp)
+    if maxsplit == 1:
+        p1 = rest
+    else:
+        p1 = z3.If(has2, z3.SubString(rest, z3.IntVal(0), z3.IndexOf(rest, sp, z3.IntVal(0))), rest)
+    n = z3.Int(uid('split.len'))
+    st.assume(n >= 1)
+    st.assume((n == 1) == z3.Not(has))
+    if maxsplit == 1:
+        st.assume(n <= 2)
+    else:
+        st.assume((n >= 3) == z3.And(has, has2))
+        if maxsplit is not None:
+            st.assume(n <= maxsplit + 1)
+    piece = z3.Function('str_split_piece', z3.StringSort(), z3.StringSort(), z3.IntSort(), z3.StringSort())
+    ex.used_stubs.add('str.split(const): first two pieces exact, later pieces uninterpreted')
+    return [(st, VSeq(length=n, kind='list',
+                      elem=lambda i: VStr(z3.If(i == 0, p0, z3.If(i == 1, p1, piece(t, sp, i))), isbytes=selfv.isbytes)))]
 
 
 @method('str', 'lower')
